@@ -211,6 +211,13 @@ def run(ctx):
     dt = rng.choice([np.float32, np.float32, np.float16])
     nprng = np.random.RandomState(rng.randint(0, 10**6))
     trees = [{f'l{j}': (nprng.randint(-8, 9, size=s) / 4).astype(dt) for j, s in enumerate(shapes)} for _ in range(k)]
+    mixed = ti % 5 == 3
+    if mixed:
+      # clients whose leaves have different dtypes (integer, half, single precision), in any order: the sum is taken in the
+      # promoted dtype
+      dts = [rng.choice([np.int32, np.float16, np.float32]) for _ in range(k)]
+      trees = [{f'l{j}': (nprng.randint(-8, 9, size=s) if dts[i] == np.int32 else nprng.randint(-8, 9, size=s) / 4).astype(dts[i])
+                for j, s in enumerate(shapes)} for i in range(k)]
     weights = [rng.choice([0, 0, 1, 2, 3, 5, 0.5, 7.25]) for _ in range(k)]
     if ti % 7 == 0:
       weights = [0] * k
@@ -231,6 +238,11 @@ def run(ctx):
       pos = [i for i in range(k) if weights[i] > 0]
       for j, s in enumerate(shapes):
         stack = np.stack([trees[i][f'l{j}'].astype(np.float64) for i in pos])
+        exact = sum(weights[i] * trees[i][f'l{j}'].astype(np.float64) for i in range(k)) / tot
+        for oi, oo in enumerate(outs):
+          got = np.asarray(jax.tree_util.tree_leaves(oo)[j], np.float64)
+          ev.append({'e': 'Fact', 'name': 'ExactWeightedMean', 'about': f'{keyname} leaf {j} order {oi} weights {weights} dtypes {[str(trees[i][f"l{j}"].dtype) for i in range(k)]}',
+                     'holds': bool(np.allclose(got, exact, rtol=2e-3, atol=2e-3))})
         eps = 1e-2 if dt == np.float16 else 1e-5
         inside = np.all(lv[j] >= stack.min(0) - eps) and np.all(lv[j] <= stack.max(0) + eps)
         ev.append({'e': 'Fact', 'name': 'InHull', 'about': f'{keyname} leaf {j} weights {weights}', 'holds': bool(inside)})
